@@ -3,11 +3,17 @@ module verif
 go 1.23
 
 require (
+	github.com/antlr/antlr4/runtime/Go/antlr/v4 v4.0.0-20221202181307-76fa05c21b12
 	github.com/awalterschulze/gographviz v0.0.0-20190522210029-fa59802746ab
 	github.com/modernizing/coca v0.0.0
 	pgregory.net/rapid v1.3.0
 )
 
-require github.com/yourbasic/radix v0.0.0-20180308122924-cbe1cc82e907 // indirect
+require (
+	github.com/huleTW/bad-smell-analysis v0.1.0 // indirect
+	github.com/sabhiram/go-gitignore v0.0.0-20180611051255-d3107576ba94 // indirect
+	github.com/yourbasic/radix v0.0.0-20180308122924-cbe1cc82e907 // indirect
+	golang.org/x/exp v0.0.0-20220722155223-a9213eeb770e // indirect
+)
 
 replace github.com/modernizing/coca => /repo
